@@ -34,11 +34,11 @@ func (c Call) String() string {
 
 // Tracker tracks readers and writers handed out by a wrapped backend.
 type Tracker struct {
-	Calls   []Call
-	Open    map[int]string // handle -> description of readers/writers not yet closed
-	nextID  int
-	Closed  int
-	Opened  int
+	Calls  []Call
+	Open   map[int]string // handle -> description of readers/writers not yet closed
+	nextID int
+	Closed int
+	Opened int
 }
 
 func NewTracker() *Tracker { return &Tracker{Open: map[int]string{}} }
